@@ -27,7 +27,8 @@ ASSUMPTIONS = ['HOME is not consulted: raw strings starting with ~ are excluded'
 LAWS = ['n_normalised', 'n_idempotent', 's_separators', 'p_parent_append', 'x_ext', 'j_json',
         'g_string', 'a_abspath']
 MUTANTS = {'n_normalised': ['path_no_escape_check'], 's_separators': ['path_no_backslash'],
-           'j_json': ['path_json_no_dir'], 'r_relpath': ['relpath_no_origin_join']}
+           'j_json': ['path_json_no_dir'], 'r_relpath': ['relpath_no_origin_join'],
+           'g_string': ['string_appends_suffix']}
 
 
 def bounds(tier):
